@@ -442,14 +442,16 @@ def gen_contract(r, d):
         return (k, gen_contract(r, d - 1))
     if k == "rec":
         fs = []
-        for f in FIELDS[:r.range(1, 3)]:
+        nf = r.weighted([(0, 2), (1, 4), (2, 4), (3, 4)])          # field-less record contracts: closed {} and open {..}
+        all_opt = r.chance(1, 7)                                    # record contracts with optional fields only
+        for f in FIELDS[:nf]:
             n = r.weighted([(1, 6), (2, 2)])
             if n == 1:
                 cs = (gen_contract(r, d - 1),)
             else:
                 fam = r.choice(["num", "str"])
                 cs = tuple(gen_leaf(r, fam) for _ in range(n))
-            fs.append((f, r.chance(1, 5), cs))
+            fs.append((f, all_opt or r.chance(1, 5), cs))
         return ("rec", r.chance(1, 4), tuple(fs))
     if k == "rt":
         return ("rt", tuple((f, gen_contract(r, d - 1)) for f in FIELDS[:r.range(1, 2)]))
@@ -616,12 +618,16 @@ def near(r, C):
             new = ("dc", c[1])
         elif k == "arr":
             new = ("arr", ("seq", "Sequence", (c[1], gen_leaf(r)))) if c[1][0] in IMMEDIATE and r.chance(1, 2) else None
+        elif k == "rec" and not c[2]:
+            new = ("rec", not c[1], ()) if r.chance(1, 2) else ("rec", c[1], (("f", r.chance(1, 2), (gen_leaf(r),)),))
         elif k == "rec":
             fs = list(c[2])
-            ch = r.below(5)
+            ch = r.below(6)
             i = r.below(len(fs))
             f, opt, cs = fs[i]
-            if ch == 0:
+            if ch == 5:
+                new = ("rec", c[1], tuple(fs[:i] + fs[i + 1:]))          # one field less (possibly none left)
+            elif ch == 0:
                 new = ("rec", not c[1], c[2])
             elif ch == 1:
                 fs[i] = (f, not opt, cs)
@@ -1122,6 +1128,12 @@ SYSTEMATIC_CONTRACTS = [
     ("dt", ("dc", ("rec", False, (("f", False, (("enum", ("a",)),)),)))),
     ("any", (("str",), ("arr", ("rec", False, (("f", False, (("num",),)),))))),
     ("dt", ("arr", ("num",))),
+    ("rec", False, ()),
+    ("rec", True, ()),
+    ("rec", False, (("f", True, (("num",),)), ("g", True, (("str",),)))),
+    ("arr", ("rec", False, ())),
+    ("dc", ("rec", False, (("f", True, (("pred", "Pos"),)),))),
+    ("rec", False, (("f", False, (("rec", False, ()),)),)),
 ]
 
 
@@ -1204,7 +1216,7 @@ def k_src(K, closedness=True):
     return "{%s}" % ", ".join(parts)
 
 
-def late_sim(base, steps, also=None):
+def late_sim(base, steps, also=None, type_drops=False):
     """-> (violated checks, final values); also: list receiving the checks that only the order-aware model of nested undefined
     fields sees (used for the admissible error classes of a rejection, never for accept/reject)"""
     st = {}
@@ -1235,6 +1247,11 @@ def late_sim(base, steps, also=None):
                         return [((f,), "record:extra-field", BLAME) for f in extra], None
                 for (f, opt, cs, dflt) in K["fields"]:
                     put(f, None if dflt is None else (dflt[0], PRIO["default"]), opt, cs)
+                if type_drops and K.get("is_type"):
+                    # (labelling only, finding record-type-drops-empty-optional-fields: a record TYPE contract rebuilds the value
+                    # without its empty optional fields, whose pending contracts are lost)
+                    for f in [f for f, e in st.items() if e["val"] is None and e["opt"]]:
+                        del st[f]
         elif stp[0] == "cmerge":
             for (f, opt, cs, dflt) in stp[1]["fields"]:
                 put(f, None if dflt is None else (dflt[0], PRIO["default"]), opt, cs)
@@ -1255,7 +1272,9 @@ def late_sim(base, steps, also=None):
                 out += fails(c, e["val"][0], (f,))
         # error classes only: a nested field that one contract requires and the value lacks stays as an undefined field and is
         # an extra field for a later closed contract on the same value (Blame+ instead of MissingDef, still a rejection)
-        also += [x for x in g_fails(seen, e["val"][0]) if x[2] not in [y[2] for y in out]]
+        import itertools
+        for perm in (itertools.permutations(seen) if len(seen) <= 3 else (seen, seen[::-1])):
+            also += [x for x in g_fails(list(perm), e["val"][0]) if x[2] not in [y[2] for y in out + also]]
     return out, final
 
 
@@ -1309,6 +1328,8 @@ def late_case(r, n, spec=None):
             used[f] += cs
             return tuple(cs)
         late = [f for f in fields if f in LATE_LATE]
+        if spec.get("base_empty") or (not spec and r.chance(1, 5)):
+            late = list(fields)                  # the literal defines nothing: `{}` (or only declares an optional field)
         # ---- contract steps
         Ks = []
         nk = spec.get("nk", r.weighted([(1, 3), (2, 5), (3, 3)]))
@@ -1322,8 +1343,12 @@ def late_case(r, n, spec=None):
                     continue
                 opt = ks["opt"].get(f, False) if ks else (r.chance(7, 10) if is_late else r.chance(1, 8))
                 fs.append((f, opt, pick_cs(f), None))
-            if not fs:
-                fs.append((fields[0], False, pick_cs(fields[0]), None))
+            if not ks:
+                shape = r.weighted([("any", 12), ("empty", 3), ("all-optional", 2)])
+                if shape == "empty":
+                    fs = []                      # field-less record contract: closed {} or open {..}
+                elif shape == "all-optional":
+                    fs = [(f, True, cs, d_) for (f, _o, cs, d_) in fs]
             Ks.append({"open": ks["open"] if ks else r.chance(1, 3), "fields": fs, "opt_first": r.chance(1, 2)})
         # ---- who defines what: base fields in the literal, late fields by a later step (or never)
         final_src = {}
@@ -1387,7 +1412,8 @@ def late_case(r, n, spec=None):
                     K = {"open": True, "fields": [(f, False, pick_cs(f) if r.chance(1, 2) else (), (v,))], "opt_first": False}
                     dsteps.append(("apply", [K], None) if r.chance(2, 3) else ("cmerge", K, side))
             if spec:
-                steps = steps + dsteps           # the value arrives after all the contracts
+                # the value arrives after all the contracts (or, defs_first, before them)
+                steps = dsteps + steps if spec.get("defs_first") else steps + dsteps
             else:
                 for d in dsteps:                 # anywhere in the history, mostly late
                     pos = len(steps) if r.chance(3, 5) else r.range(0, len(steps))
@@ -1407,8 +1433,13 @@ def late_case(r, n, spec=None):
                     aliases[id(K)] = nm
                     lets.append((nm, k_src(K)))
             try:
+                for K in Ks:
+                    # written inline, a closed field-less `{}` in an annotation is the empty record TYPE
+                    K["is_type"] = (not K["fields"] and not K["open"] and id(K) not in aliases
+                                    and any(x[0] == "apply" and len(x[1]) == 1 and x[1][0] is K for x in steps))
                 also = []
                 fl, final = late_sim(base, steps, also)
+                fl2, final2 = late_sim(base, steps, [], type_drops=True)
             except ValueError:
                 continue
             E, nested = late_render(base, steps, nest_from, aliases)
@@ -1422,7 +1453,13 @@ def late_case(r, n, spec=None):
             sig = "".join({"apply": "K", "cmerge": "k", "def": "d"}[x[0]] if not (x[0] == "apply" and len(x[1]) > 1) else "S" for x in steps)
             allc = [c for f in fields for c in (used[f] or fam[f])]
             alt = prediction(fl + also, tree) if fl else ideal
-            return {"program": prog, "swapped": prog, "ideal": ideal, "impl_model": {k: [alt] for k in ("default", "nodedup", "swapped")},
+            alts = [alt]
+            if final2 is not None and (not fl2) != (not fl):
+                alts.append(prediction(fl2, canon_V({"y": final2} if nested else final2)))
+            return {"program": prog, "swapped": prog, "ideal": ideal, "impl_model": {k: alts for k in ("default", "nodedup", "swapped")},
+                    "quirk_key": "record-type-drops-empty-optional-fields",
+                    "quirk_text": "a record type contract (here the inline `{}`) dropped the value's empty optional fields together with the contracts "
+                                  "an earlier step attached to them",
                     "nfailed": len(fl), "ctx": "late:" + ("nested" if nested else "top"), "pres": ["late:alias" if aliases else "late:inline"],
                     "rel": None, "role": "mutant" if bad else "member", "forced": "none", "late_history": sig,
                     "late_sources": sorted(set(final_src.values())) + (["literal-optional"] if any(v[0] is None for v in base.values()) else []),
@@ -1433,7 +1470,7 @@ def late_case(r, n, spec=None):
 
 def gen_late_cases(seed, tier):
     rng = core.SplitMix64(seed * 15485863 + 4004)
-    total = 320 if tier == "quick" else 10000
+    total = 380 if tier == "quick" else 10000
     cases = []
     n = 0
     # systematic grid: first contract A (late field optional / required), second contract B (closed / open, mentions the late field
@@ -1463,6 +1500,28 @@ def gen_late_cases(seed, tier):
             if c:
                 c["stream"] = "late-systematic"
                 cases.append(c)
+    # second grid: a field-less record contract E (closed {} / open {..}), alone or with a contract A that lists the fields, in both
+    # orders, on a literal that defines nothing or defines `bar`, applied before or after the values arrive, by alias or inline
+    # (an inline `{}` in an annotation is the empty record TYPE: same denotation)
+    gi = 0
+    for e_open in (False, True):
+        for with_a in ("none", "AE", "EA"):
+            for base_empty in (True, False):
+                for defs_first in (False, True):
+                    for alias in (True, False):
+                        gi += 1
+                        if tier == "quick" and gi % 2 == (seed % 2):
+                            continue
+                        E = {"open": e_open, "mention": {"bar": False, "foo": False}, "opt": {}}
+                        A = {"open": False, "mention": {"bar": True, "foo": True}, "opt": {"foo": True, "bar": base_empty}}
+                        ks = {"none": [E], "AE": [A, E], "EA": [E, A]}[with_a]
+                        spec = {"nk": len(ks), "ks": ks, "how": "def" if gi % 3 else "def_default", "bad": gi % 5 == 0, "badfield": "foo",
+                                "side": "right" if gi % 2 else "left", "alias": alias, "base_empty": base_empty, "defs_first": defs_first}
+                        n += 1
+                        c = late_case(rng.fork(), n, spec)
+                        if c:
+                            c["stream"] = "late-systematic-empty"
+                            cases.append(c)
     while len(cases) < total:
         n += 1
         c = late_case(rng.fork(), n)
@@ -1495,7 +1554,10 @@ def judge(case, out, nod, sw):
             pass        # (a rejection may carry the error class of a check that only the order-aware prediction sees)
         elif any(a["accept"] != ideal["accept"] and consistent(o, a) for a in alts):
             quirk = True
-            if ideal["accept"]:
+            if case.get("quirk_key"):
+                v.append((case["quirk_key"], "%s: expected %s, the %s run gives %s" % (
+                    case["quirk_text"], "OK " + ideal["tree"][:80] if ideal["accept"] else "a rejection (%s)" % ", ".join(ideal["failed"]), name, o[:90])))
+            elif ideal["accept"]:
                 v.append((QUIRK_KEYS["accept-but-rejected"], "every attached contract accepts the final value but the %s run gives %s: an optional field of "
                           "one record contract, absent from the value, is counted as an extra field by a later closed record contract" % (name, o)))
             else:
